@@ -60,11 +60,12 @@ type Config struct {
 	HoldPct     int // per mempool transaction and block, inside the fault window: held back
 	FaultBlocks int // the fault window: faults are injected while height < FaultBlocks
 	Rerun       bool
-	Slow        int  // member whose calls are starved inside the fault window (-1: nobody)
-	SlowPct     int  // probability that a decision passes over the slow member's parked calls
-	Upgrade     bool // the chain is first deployed with older-version executables; Deploy must upgrade them
-	Liveness    int  // B: blocks allowed after the last fault
-	Bootstrap   int  // B1: blocks allowed for the Notary bootstrap with late members absent
+	Slow        int   // member whose calls are starved inside the fault window (-1: nobody)
+	SlowPct     int   // probability that a decision passes over the slow member's parked calls
+	Upgrade     bool  // the chain is first deployed with older-version executables; Deploy must upgrade them
+	NEO         int64 // NEO left on the validators' account before the start (0: as genesis left it, 100M)
+	Liveness    int   // B: blocks allowed after the last fault
+	Bootstrap   int   // B1: blocks allowed for the Notary bootstrap with late members absent
 }
 
 // Violation is one broken oracle rule.
@@ -280,6 +281,9 @@ func RunSim(t *testing.T, cfg Config) (res *Result) {
 		s.c.onTx = s.onTx
 		s.c.onReject = s.onReject
 		s.updTx = map[string]string{}
+		if cfg.NEO > 0 {
+			s.c.SetCommitteeNEO(cfg.NEO)
+		}
 		if cfg.Upgrade {
 			s.old = loadOld()
 			if !s.bootstrapOld() {
@@ -288,7 +292,7 @@ func RunSim(t *testing.T, cfg Config) (res *Result) {
 				return
 			}
 		}
-		s.logf("config n=%d random=%v blockQuanta=%d late=%v crashes=%v rpcErr=%d evt=%d hold=%d window=%d rerun=%v slow=%d/%d upgrade=%v", cfg.N, cfg.SchedRandom, cfg.BlockQuanta, cfg.Late, cfg.Crashes, cfg.RPCErrPct, cfg.EvtPct, cfg.HoldPct, cfg.FaultBlocks, cfg.Rerun, cfg.Slow, cfg.SlowPct, cfg.Upgrade)
+		s.logf("config n=%d random=%v blockQuanta=%d late=%v crashes=%v rpcErr=%d evt=%d hold=%d window=%d rerun=%v slow=%d/%d upgrade=%v neo=%d", cfg.N, cfg.SchedRandom, cfg.BlockQuanta, cfg.Late, cfg.Crashes, cfg.RPCErrPct, cfg.EvtPct, cfg.HoldPct, cfg.FaultBlocks, cfg.Rerun, cfg.Slow, cfg.SlowPct, cfg.Upgrade, cfg.NEO)
 		for _, l := range cfg.Late {
 			s.lateHeld[l] = true
 			s.inject("member.late")
@@ -1091,7 +1095,11 @@ func (s *sim) endState() {
 				mx = a
 			}
 		}
-		if sum.Cmp(big.NewInt(100_000_000)) != 0 || new(big.Int).Sub(mx, mn).Cmp(big.NewInt(1)) > 0 {
+		total := int64(100_000_000) // NEO's fixed supply, all of it on the validators' account at genesis
+		if s.cfg.NEO > 0 {
+			total = s.cfg.NEO
+		}
+		if sum.Cmp(big.NewInt(total)) != 0 || new(big.Int).Sub(mx, mn).Cmp(big.NewInt(1)) > 0 {
 			s.violate("C13/end-neo-distribution", "Alphabet contracts hold %v NEO (sum %s)", shares, sum)
 		}
 	}
